@@ -329,9 +329,14 @@ def gen_lf(rng, li, max_frames=30, names_pool=None, origin=None, waves=False):
         if any(np.prod(channels[c]['dims']) > 400 for c in idx):
             nrows = min(nrows, 3)
         x0 = rng.pick([100.0, 2889.4, 0.0, 5000.0, 12.5])
-        dx = rng.pick([0.5, 1.5, -0.25, 0.1524, 1.0, 10.0])
+        # a coarse or stuck index (whole seconds at 2.5 Hz, a station log) repeats its value from frame to frame
+        dx = rng.pick([0.5, 1.5, -0.25, 0.1524, 1.0, 10.0, 0.5, 1.0, 0.0])
         # frame numbers are UVARI: 1, 2 or 4 bytes, changing at 128 and 16384; logs do not all start at frame 1
         fno = rng.wpick([(10, 1), (2, 0), (2, 7), (2, rng.randrange(120, 129)), (3, rng.randrange(16376, 16385)), (1, (1 << 30) - 200)])
+        # producers that do not maintain the frame number write the same one (0 or 1) into every record
+        stuck_fno = rng.chance(0.06)
+        if stuck_fno:
+            fno = rng.pick([0, 1, 1])
         rows = []
         for r in range(nrows):
             bits = []
@@ -345,8 +350,10 @@ def gen_lf(rng, li, max_frames=30, names_pool=None, origin=None, waves=False):
                 else:
                     bits.append([gen_bits(rng, ch['rep']) for _ in range(count)])
             rows.append({'fno': fno, 'bits': bits})
-            fno += rng.wpick([(8, 1), (1, 2), (1, 5)])
-        frames.append({'name': rng.pick(['FR', '60B', '10B', 'F', '0.1524M', 'FRAME.', 'A B']) + str(ft + 1), 'desc': rng.pick(['', 'main', None]), 'channels': idx, 'rows': rows})
+            fno += 0 if stuck_fno else rng.wpick([(8, 1), (1, 2), (1, 5)])
+        # object names are IDENTs of up to 255 characters; long ones make the head of every frame record long
+        long_name = rng.pick(['MAIN_PASS_DEPTH_LOG_FRAME_', 'REPEAT_SECTION_TIME_INDEXED_FRAME_TYPE_NUMBER_', 'F' * 60, 'WAVEFORM-' * 12])
+        frames.append({'name': (rng.pick(['FR', '60B', '10B', 'F', '0.1524M', 'FRAME.', 'A B']) if not rng.chance(0.1) else long_name) + str(ft + 1), 'desc': rng.pick(['', 'main', None]), 'channels': idx, 'rows': rows})
     # interleave
     order = []
     left = [len(f['rows']) for f in frames]
